@@ -9,8 +9,13 @@
 //                               object → InitHash; px.New positional and named (each unless ambiguous) → ReflectTo → DeepEqual
 //       out = <init hash> [| pos=ok back=<go-value> eq=<t|f> | pos=reported CODE] [| named=…]
 // ops (implementation only, labelled tests — no model counterpart):
-//   @obj <struct-type> <go-value>  register every struct type bottom-up with TypeFromReflect (named T::S<i>), wrap the
-//                               struct → object; derived type accepts it; ReflectTo back; px.New(type, InitHash) → ReflectTo
+//   @refl / @obj on types with nested structs, bare interface{} fields …: as above, every struct type registered bottom-up
+//                               with TypeFromReflect under the names T::S<i>
+//   @reflraw <go-type> <go-value>   refl without registering the struct types (an unknown struct wraps to a Hash)
+//   @reflanon <go-type> <go-value>  px.WrapReflectedType first (anonymous object types), then refl without registration
+//   obj construction forms: pos (all attribute values), postrim (without the trailing values that equal their default),
+//                               named (InitHash), full (hash with every attribute); a form is skipped when a single Hash
+//                               argument would be ambiguous
 //
 // go-type  ::= (int W) | (uint W) | (float 32|64) | string | bool | iface | (slice T) | (map K V) | (ptr T)
 //            | (array N T) | (struct (Name T [xTAG])…)          W ∈ {0,8,16,32,64}; 0 = int / uint
@@ -614,6 +619,25 @@ func exec(c px.Context, op string, args []sx.Sexp) (r core.Result) {
 			r = refl(fc, tyOf(args[0]), args[1], true)
 		case "reflraw":
 			r = refl(fc, tyOf(args[0]), args[1], false)
+		case "reflanon":
+			// anonymous object types: the type is derived (and thereby registered, without a name) before the value is wrapped
+			t := tyOf(args[0])
+			if k, text := safely(func() {
+				if _, err := px.WrapReflectedType(fc, t.rtype()); err != nil {
+					panic(err)
+				}
+			}); k != "" {
+				cl := "fault"
+				if strings.Contains(text, "already present in the implementation registry") && nestedStruct(t, false) {
+					cl = "anon-struct-nested"
+				}
+				r = core.Result{Out: "derive=" + k, Pred: oneLine("FAIL " + cl + " derive type: " + text), NonTrivial: true}
+				if notReflectable(t) != "" {
+					r.Pred = "n/a"
+				}
+				return
+			}
+			r = refl(fc, t, args[1], false)
 		case "obj":
 			r = obj(fc, tyOf(args[0]), args[1])
 		}
@@ -672,7 +696,14 @@ func refl(c px.Context, t *gty, ve sx.Sexp, register bool) core.Result {
 	})
 	ws, ts := wk, tk
 	if wk == "" {
-		ws = encVal(wrapped)
+		// an instance of an anonymous object type (derived by WrapReflectedType, never resolved) faults when it is used
+		if k, text := safely(func() { ws = encVal(wrapped) }); k != "" {
+			out := "use=" + k
+			if !register && t.has("struct") && notReflectable(t) == "" {
+				return res(out, "FAIL anon-struct-unresolved InitHash of the wrapped value: "+text)
+			}
+			return res(out, "FAIL fault using the wrapped value: "+text)
+		}
 	}
 	if tk == "" {
 		ts = encTy(pt)
@@ -1445,6 +1476,9 @@ func gen(g *core.G) {
 			}
 			if nraw++; nraw%10 == 0 {
 				g.Emit("@reflraw " + t.sexp().String() + " " + v)
+			}
+			if nraw%4 == 1 {
+				g.Emit("@reflanon " + t.sexp().String() + " " + v)
 			}
 			return
 		}
